@@ -286,7 +286,8 @@ package diam
 //@
 //@ func readerBufferSlice(buf, l) (r)
 //@   property C03 C05 C06
-//@   requires buf != nil && l >= 0 && l < 1<<32
+//@   requires buf != nil && l >= 0
+//@   requires [C03 C05] claimed_length_is_24_bit: l < 1<<24
 //@   assume buffer_length_setting: MessageBufferLength >= 20 && MessageBufferLength < 1<<30
 //@   modifies
 //@   ensures [C05] exact: len(r) == l
@@ -309,6 +310,7 @@ package diam
 //@   assume default_dictionary_initialised: dict.Default != nil && pwf(dict.Default)
 //@   modifies m.Header, pos(r), bufslice(buf)[0:20]
 //@   ensures [C05] consumed: err == nil ==> pos(r) == old(pos(r)) + 20 && m.Header != nil && cmd != nil && hdr_wire(m.Header, stream(r)[old(pos(r)):])
+//@   ensures [C03 C05] length_is_24_bit: err == nil ==> m.Header.MessageLength < 1<<24
 //@   ensures [C05] eof: old(pos(r)) == len(stream(r)) ==> err == io.EOF
 //@   ensures [C05] truncated: old(pos(r)) < len(stream(r)) && old(pos(r)) + 20 > len(stream(r)) ==> err != nil && err != io.EOF
 //@   ensures [C05] at_most_header: pos(r) <= old(pos(r)) + 20 && old(pos(r)) <= pos(r)
@@ -322,11 +324,12 @@ package diam
 //@   requires m != nil && m.Header != nil && r != nil && buf != nil && cmd != nil && !implements(r, MultistreamReader)
 //@   requires m.dictionary != nil ==> pwf(m.dictionary)
 //@   requires pool_buffer: cap(bufslice(buf)) >= 20
+//@   requires decoded_header: m.Header.MessageLength < 1<<24
 //@   requires stream_wf: 0 <= pos(r) && pos(r) <= len(stream(r))
 //@   assume default_dictionary_initialised: dict.Default != nil && pwf(dict.Default)
 //@   assume buffer_length_setting: MessageBufferLength >= 20 && MessageBufferLength < 1<<30
 //@   modifies m.AVP, pos(r), bufslice(buf)[0:cap(bufslice(buf))]
-//@   ensures [C05] reject_short_length: m.Header.MessageLength < 20 ==> err != nil && pos(r) == old(pos(r))
+//@   ensures [C03 C05] reject_short_length: m.Header.MessageLength < 20 ==> err != nil && pos(r) == old(pos(r))
 //@   ensures [C05] consumed: err == nil ==> pos(r) == old(pos(r)) + int(m.Header.MessageLength) - 20
 //@   ensures [C05] truncated: m.Header.MessageLength >= 20 && old(pos(r)) + int(m.Header.MessageLength) - 20 > len(stream(r)) ==> err != nil
 //@   ensures [C05] never_beyond: m.Header.MessageLength >= 20 ==> pos(r) <= old(pos(r)) + int(m.Header.MessageLength) - 20
@@ -346,4 +349,21 @@ package diam
 //@   ensures [C05] short_length_rejected: old(pos(reader)) + 20 <= len(stream(reader)) && be24(stream(reader), old(pos(reader)) + 1) < 20 ==> err != nil && pos(reader) == old(pos(reader)) + 20
 //@   ensures [C05] eof_inside_body: old(pos(reader)) + 20 <= len(stream(reader)) && be24(stream(reader), old(pos(reader)) + 1) >= 20 && old(pos(reader)) + int(be24(stream(reader), old(pos(reader)) + 1)) > len(stream(reader)) ==> err != nil
 //@   ensures [C05] never_beyond: old(pos(reader)) + 20 <= len(stream(reader)) && be24(stream(reader), old(pos(reader)) + 1) >= 20 ==> pos(reader) <= old(pos(reader)) + int(be24(stream(reader), old(pos(reader)) + 1))
+//@ end
+//@
+//@ # ======================= reflect.go (only the bookkeeping; the rest is reflection, C18) =====
+//@ # marshalStruct is written in reflect and is outside the verifier's reach: its contract is ASSUMED (and
+//@ # bounded-checked by the C18 harness): it changes nothing but fresh objects and returns a well-formed AVP list.
+//@ func marshalStruct(m, field) (err, avps)
+//@   trusted
+//@   modifies
+//@   ensures wellformed: err == nil ==> wf(avps)
+//@ end
+//@
+//@ func (*Message).Marshal(m, src) (err)
+//@   property C02
+//@   requires m != nil && m.Header != nil
+//@   modifies m.AVP, m.Header.MessageLength
+//@   ensures [C02] length_recomputed: err == nil ==> m.Header.MessageLength == uint32(20 + sumlen(m.AVP, len(m.AVP)))
+//@   ensures [C02] unchanged_on_error: err != nil ==> m.Header.MessageLength == old(m.Header.MessageLength) && sameslice(m.AVP, old(m.AVP))
 //@ end
